@@ -250,27 +250,100 @@ Print Assumptions c06_ts_timestamps_below_base_pinned_refuted.
 Definition f23_vsh : rmsg := mk_rmsg 9 1000 [23;0;0;0;0; 1;100;0;31;255; 225;0;4; 103;100;0;31; 1;0;2; 104;238].
 Definition f23_ash : rmsg := mk_rmsg 8 1000 [175; 0; 18; 16].
 
-(* PAT / PMT first and once: the output of any run is empty (the probe is still
+(* PAT / PMT first: the output of any run is empty (the probe is still
    collecting) or starts with PackPat ++ PackPmt(v, a) - which C09 proved to be
-   two conforming sections announcing exactly the codecs v, a - followed by TS
-   frames only *)
+   two conforming sections announcing exactly the codecs v, a.  What follows
+   are frames and, when a track starts after the probe window, a new version of
+   the PMT that announces it (lal fix of C06-ts-late-track-not-in-pmt): again
+   PackPat followed by a conforming PMT section, for every codec pair and
+   version *)
 Theorem c06_patpmt_first : forall O (dec : O -> tsev -> bool) (app : O -> tsev -> list tsev -> O) (pp : O -> bytes -> O)
     acts o x' o' outs,
   run_actions O dec app pp remuxer_init o acts = (x', o', outs) ->
   outs = [] \/
-  exists v a rest, outs = OutPatPmt (pack_pat ++ pack_pmt v a) :: rest /\ Forall is_ts rest
+  exists v a rest, outs = OutPatPmt (pack_pat ++ pack_pmt v a) :: rest /\ Forall ts_or_pmt rest
     /\ parse_pat_packet pack_pat = Some {| pat_ts_pid := 0; pat_tsid := 1; pat_programs := [(1, 4097)] |}
     /\ parse_pmt_packet (pack_pmt v a)
-       = Some {| pmt_ts_pid := 4097; pmt_program := 1; pmt_pcr_pid := 256; pmt_streams_of := expected_streams v a |}.
+       = Some {| pmt_ts_pid := 4097; pmt_program := 1; pmt_pcr_pid := 256; pmt_streams_of := expected_streams v a |}
+    /\ (forall v' a' k, parse_pmt_packet (pack_pmt_ver v' a' k)
+          = Some {| pmt_ts_pid := 4097; pmt_program := 1; pmt_pcr_pid := 256; pmt_streams_of := expected_streams v' a' |}).
 Proof.
   intros O dec app pp acts o x' o' outs H.
   destruct (run_invariant O dec app pp acts o x' o' outs H) as (_ & _ & Hf).
   destruct (fq_done (x_filter x')).
   - right. destruct Hf as (v & a & rest & -> & Hr). exists v, a, rest.
-    split; [reflexivity|]. split; [exact Hr|]. split; [exact (proj2 pack_pat_ok)|exact (proj2 (pack_pmt_ok v a))].
+    split; [reflexivity|]. split; [exact Hr|]. split; [exact (proj2 pack_pat_ok)|].
+    split; [exact (proj2 (pack_pmt_ok v a))|]. intros v' a' k. exact (proj2 (pack_pmt_ver_ok v' a' k)).
   - left. exact (proj1 Hf).
 Qed.
 Print Assumptions c06_patpmt_first.
+
+(* the late track: after the probe, the first AAC / Opus message of a stream
+   whose audio codec is still unknown (resp. the first AVC / HEVC message when
+   the video codec is unknown) is preceded by PAT + a PMT of the NEXT version
+   that announces it on PID 0x101 (0x100); the codec is then known, so it is
+   announced once *)
+Theorem c06_ts_late_track_announced : forall O (dec : O -> tsev -> bool) (app : O -> tsev -> list tsev -> O) (pp : O -> bytes -> O)
+    x o m,
+  fq_done (x_filter x) = true ->
+  (rm_type m = type_audio /\ fq_acodec (x_filter x) = (-1)%Z /\ rm_payload m <> []
+   /\ (pb m 0 / 16 = 10 \/ pb m 0 / 16 = 13)
+   \/ rm_type m = type_video /\ fq_vcodec (x_filter x) = (-1)%Z
+      /\ (video_codec_id m = 7 \/ video_codec_id m = 12)) ->
+  exists x' o' rest v a,
+    feed_rtmp_message O dec app pp x o m
+    = (x', o', OutPatPmt (pack_pat ++ pack_pmt_ver v a (u8 (fq_version (x_filter x) + 1))) :: rest)
+    /\ Forall is_ts rest
+    /\ fq_vcodec (x_filter x') = v /\ fq_acodec (x_filter x') = a
+    /\ (rm_type m = type_audio -> a = Z.of_N (pb m 0 / 16) /\ v = fq_vcodec (x_filter x)
+          /\ In 257 (map es_pid (expected_streams v a)))
+    /\ (rm_type m = type_video -> v = Z.of_N (video_codec_id m) /\ a = fq_acodec (x_filter x)
+          /\ In 256 (map es_pid (expected_streams v a))).
+Proof.
+  intros O dec app pp x o m Hd Hc. unfold feed_rtmp_message. rewrite Hd. unfold late_track.
+  destruct Hc as [(Hty & Ha & Hne & Hco)|(Hty & Hv & Hco)].
+  - rewrite Hty, Ha. change (type_audio =? type_audio) with true. cbv iota.
+    replace (lenN (rm_payload m) =? 0) with false
+      by (destruct (rm_payload m); [congruence|reflexivity]).
+    change (negb (-1 =? -1)%Z) with false. cbn [orb].
+    replace ((Z.of_N (pb m 0 / 16) =? 10)%Z || (Z.of_N (pb m 0 / 16) =? 13)%Z) with true
+      by (destruct Hco as [-> | ->]; reflexivity).
+    cbn [fq_data fq_acodec fq_vcodec fq_done fq_version].
+    cbv beta iota zeta.
+    match goal with |- context [on_pop ?a ?b ?c ?d ?e ?g] => destruct (on_pop a b c d e g) as [[s1 o1] evs] end.
+    eexists _, _, _, _, _. split; [reflexivity|]. split; [apply is_ts_map|]. cbn [x_filter fq_vcodec fq_acodec].
+    split; [reflexivity|]. split; [reflexivity|]. split.
+    + intros _. split; [reflexivity|]. split; [reflexivity|]. unfold expected_streams.
+      destruct Hco as [-> | ->]; cbn [Z.of_N Z.eqb Pos.eqb];
+        destruct (Z.eqb _ 7); [| destruct (Z.eqb _ 12) | | destruct (Z.eqb _ 12)]; cbn; tauto.
+    + intros H. discriminate H.
+  - rewrite Hty, Hv. change (type_video =? type_audio) with false. change (type_video =? type_video) with true. cbv iota.
+    change (negb (-1 =? -1)%Z) with false. cbv iota.
+    replace ((Z.of_N (video_codec_id m) =? 7)%Z || (Z.of_N (video_codec_id m) =? 12)%Z) with true
+      by (destruct Hco as [-> | ->]; reflexivity).
+    cbn [fq_data fq_acodec fq_vcodec fq_done fq_version].
+    cbv beta iota zeta.
+    match goal with |- context [on_pop ?a ?b ?c ?d ?e ?g] => destruct (on_pop a b c d e g) as [[s1 o1] evs] end.
+    eexists _, _, _, _, _. split; [reflexivity|]. split; [apply is_ts_map|]. cbn [x_filter fq_vcodec fq_acodec].
+    split; [reflexivity|]. split; [reflexivity|]. split.
+    + intros H. discriminate H.
+    + intros _. split; [reflexivity|]. split; [reflexivity|]. unfold expected_streams.
+      destruct Hco as [-> | ->]; cbn; tauto.
+Qed.
+Print Assumptions c06_ts_late_track_announced.
+
+(* ... where the pinned tree sent only the PMT of the probe window, which names
+   no audio (video) stream for an unknown codec id: the late track stayed on a
+   PID no PMT announced *)
+Theorem c06_ts_late_track_pinned_refuted :
+  (forall v, ~ In 257 (map es_pid (expected_streams v (-1)))) /\
+  (forall a, ~ In 256 (map es_pid (expected_streams (-1) a))).
+Proof.
+  split; intro z; unfold expected_streams.
+  - destruct (Z.eqb z 7); [|destruct (Z.eqb z 12)]; cbn; intuition discriminate.
+  - destruct (Z.eqb z 10); [|destruct (Z.eqb z 13)]; cbn; intuition discriminate.
+Qed.
+Print Assumptions c06_ts_late_track_pinned_refuted.
 
 (* the transport stream as a whole: all packets of all frames of a run, audio
    and video interleaved in whatever way; the packets of one PID through C09's
